@@ -6,7 +6,8 @@ VARIABLE l
 Init == l = 1
 StepCase(e)  == e.ev = "case"
 StepShape(e) == e.ev = "shape" /\ Report(e.case, ShapeFails(e), [bbox |-> e.bbox, np |-> e.np, nc |-> e.nc])
-StepPanic(e) == e.ev = "panic"      \* totality is C08's business; counted by the recorder
+\* a library call of this case panicked: the property promises a result for every input of its domain
+StepPanic(e) == e.ev = "panic" /\ Report(e.case, {"library_call_panicked"}, [msg |-> e.msg, loc |-> e.loc])
 Next == /\ l <= NRec
         /\ LET e == Rec[l] IN StepCase(e) \/ StepShape(e) \/ StepPanic(e)
         /\ l' = l + 1
